@@ -114,6 +114,7 @@ class Leaf:
 class TokenizerAnalysis:
     def __init__(s, src_path, cls_name='StreamTokenizer', entry='tokenize'):
         s.path = src_path
+        s.cls_name = cls_name
         s.relname = 'auditok/core.py'
         # the whole package is parsed: the class may inherit from a private base class, use module-level constants / enums
         # and call helper functions that live in this or in another module of the package
@@ -718,7 +719,10 @@ class TokenizerAnalysis:
         for lfs in s.leaf_cache.values():
             for lf in (lfs if isinstance(lfs, (list, tuple)) else [lfs]):
                 why_ = getattr(lf, 'imprecise', None)
-                if why_:
+                # only an imprecision that made the interpreter GUESS the control flow (a test on a value it does not model) can
+                # corrupt the invariants other paths are checked under; a second read, an append of something else than the frame, a
+                # statement after the loop are local to their path (and are themselves what some obligations decide)
+                if why_ and ('opaque' in str(why_) or 'stale' in str(why_)):
                     imp_ = why_
                     break
             if imp_:
@@ -1308,7 +1312,38 @@ class TokenizerAnalysis:
                 s.notes = getattr(s, 'notes', []) + ['mode bits not found as boolean fields (representation not recognised); decided through the per-mode obligations only']
             s.flag_fields = dict(strict=strict_f, drop=drop_f)
         s._stale_copies(init, obs, alarms, where0)
+        s._identity_on_numbers(obs, alarms, where0)
         return obs, alarms, spec_txt
+
+    def _identity_on_numbers(s, obs, alarms, where0):
+        """a value given by the caller (a parameter) is never compared with an integer constant by IDENTITY: `mode is self.X` holds
+        for the small ints CPython caches and fails for an equal numpy integer, IntFlag member or large int, which `==` / `in` accept"""
+        I = s.I
+        n = 0
+        for mn, m in I.methods.items():
+            params = {a.arg for a in m.args.args[1:] + m.args.kwonlyargs}
+            intlocals = set()
+            for x in ast.walk(m):
+                if isinstance(x, (ast.Assign, ast.AugAssign)):
+                    v = x.value
+                    tg = x.targets if isinstance(x, ast.Assign) else [x.target]
+                    names = [y for y in ast.walk(v) if isinstance(y, (ast.Name, ast.Attribute, ast.Constant))]
+                    if names and all((isinstance(y, ast.Constant) and isinstance(y.value, int) and not isinstance(y.value, bool)) or (isinstance(y, ast.Attribute) and y.attr in I.consts)
+                                     or (isinstance(y, ast.Name) and (y.id in ('self', s.cls_name) or y.id in intlocals)) for y in names):
+                        intlocals |= {t.id for t in tg if isinstance(t, ast.Name)}
+
+            def is_int_const(e):
+                return (isinstance(e, ast.Constant) and isinstance(e.value, int) and not isinstance(e.value, bool)) or (isinstance(e, ast.Attribute) and e.attr in I.consts
+                        and isinstance(e.value, ast.Name) and e.value.id in ('self', s.cls_name)) or (isinstance(e, ast.Name) and e.id in intlocals)
+            for x in ast.walk(m):
+                if isinstance(x, ast.Compare) and len(x.ops) == 1 and isinstance(x.ops[0], (ast.Is, ast.IsNot)):
+                    a, b = x.left, x.comparators[0]
+                    n += 1
+                    for p_, c_ in ((a, b), (b, a)):
+                        if isinstance(p_, ast.Name) and p_.id in params and is_int_const(c_):
+                            s._ob(obs, alarms, ['C02', 'C03'], 'a value given by the caller is compared with an integer constant by equality, not by identity (%s in %s): an equal integer of another kind (numpy, IntFlag, a large int) is the same mode'
+                                  % (ast.unparse(x), mn), [], False, None, 'ctor', [], '%s:%d' % (s.relname, x.lineno), None)
+        obs.append(dict(props=['C02'], rule='no identity comparison of a parameter with an integer constant (%d identity comparisons examined)' % n, ok=True, key='-', input='ctor', where=where0))
 
     def _stale_copies(s, init, obs, alarms, where0):
         """the bounds are PUBLIC attributes (tokenizer.max_length = ... between two streams is honoured: every decision reads the
@@ -1344,6 +1379,7 @@ class TokenizerAnalysis:
                 if not (isinstance(t, ast.Attribute) and isinstance(t.value, ast.Name) and t.value.id == 'self' and t.attr.startswith('_')):
                     continue
                 nchecked += 1
+                used = [u for u in used if public[u] in PROPS]          # the numeric bounds only (a validator object is not a bound)
                 if used and t.attr not in getattr(s, 'stores', {}) and t.attr in reads:
                     props = sorted({p_ for u in used for p_ in PROPS.get(u, ['C02', 'C03', 'C04'])})
                     s._ob(obs, alarms, props, 'the automaton reads the public bound %s itself, not a copy computed at construction (field %s = %s, read by %s): assigning the attribute between two streams is honoured'
